@@ -57,7 +57,7 @@ def generate(rng, tier):
         "crop": 3, "pad": 3, "mask_arr": 2, "mask_r": 2, "fill": 1, "spike_clip": 2,
         "remove_piston": 2, "remove_tiptilt": 2, "remove_power": 2, "recenter": 2,
         "latcal": 3, "strip_latcal": 2, "filter": 1,
-        "read": 8, "copy": 1, "slices": 1, "stats": 1, "precision": 1, "poison": 1,
+        "read": 8, "copy": 1, "slices": 1, "stats": 1, "precision": 1, "poison": 1, "observe": 2,
     }
     enabled = {k: w for k, w in kinds.items() if rng.random() < 0.7 or k == "read"}
     if not any(k in enabled for k in MUTATORS):
@@ -104,6 +104,8 @@ def generate(rng, tier):
                 op = {"op": "filter", "typ": typ, "fc": rng.uniform(0.05, 0.9)}
         elif k == "precision":
             op = {"op": "precision", "bits": rng.choice([32, 64])}
+        elif k == "observe":
+            op = {"op": "observe", "what": rng.choice(["pvr", "pvr", "strehl", "psd", "support", "str", "slope"])}
         elif k == "poison":
             # a step that is given nonsense and (today) fails: whatever it leaves behind must be coherent
             op = {"op": "poison", "kind": rng.choice(["pad_smaller", "mask_badshape", "filter_badtype", "pad_both"])}
@@ -268,6 +270,24 @@ def execute(plan):
                 s.x, s.y
             elif k == "stats":
                 ifg.pv, ifg.rms, ifg.Sa, ifg.std, ifg.dropout_percentage
+            elif k == "observe":
+                # read-only figures of merit: their values are not judged, the object afterwards is
+                what = op["what"]
+                try:
+                    if what == "pvr":
+                        ifg.pvr() if ifg.data.shape[0] == ifg.data.shape[1] else ifg.pvr(normalization_radius=1.0)
+                    elif what == "strehl":
+                        ifg.strehl
+                    elif what == "psd":
+                        ifg.psd()
+                    elif what == "support":
+                        ifg.support, ifg.support_x, ifg.support_y, ifg.size, ifg.shape
+                    elif what == "str":
+                        str(ifg)
+                    elif what == "slope":
+                        ifg.slope()
+                except Exception:
+                    pass
             elif k == "copy":
                 orig = ifg
                 ifg = ifg.copy()
@@ -459,7 +479,7 @@ def execute(plan):
         if not skip and out_for_oracles == "ok":
             data_now = ifg.data
             # steps that do not claim to change the values must not
-            if k in ("read", "slices", "stats", "copy", "precision", "recenter", "latcal", "strip_latcal"):
+            if k in ("read", "slices", "stats", "observe", "copy", "precision", "recenter", "latcal", "strip_latcal"):
                 if not _nan_eq(np, data_now, before):
                     viol("data-untouched", i, k, bits)
             if k in ("mask_arr", "mask_r", "spike_clip"):
@@ -629,6 +649,32 @@ def _invariants(np, ifg, mdl, i, k, bits, viol):
     if not bool(np.all(np.isnan(data) == ~mdl.valid)):
         viol("validity", i, k, bits, n_bad=int(np.sum(np.isnan(data) != ~mdl.valid)))
         mdl.valid = ~np.isnan(data)
+    # a partially populated cache can answer differently depending on which coordinate is asked
+    # for first (one getter may regenerate its partner): ask a second copy in the reverse order
+    part = [ch for ch in bits if ch not in "-?"]
+    if 0 < len(part) < 4:
+        c2 = copy.deepcopy(ifg)
+        for w in "tryx":
+            try:
+                a2 = np.asarray(getattr(c2, w))
+            except Exception as e:
+                viol("coord-shape", i, k, bits, which=w, exc=type(e).__name__, order="reverse")
+                continue
+            if tuple(a2.shape) != shp:
+                viol("coord-shape", i, k, bits, which=w, got=list(a2.shape), want=list(shp), order="reverse")
+        try:
+            x2, y2 = np.asarray(c2.x, dtype=float), np.asarray(c2.y, dtype=float)
+            r2, t2 = np.asarray(c2.r, dtype=float), np.asarray(c2.t, dtype=float)
+            if x2.shape == shp and y2.shape == shp and r2.shape == shp and t2.shape == shp:
+                ext2 = max(float(np.abs(x2).max()), float(np.abs(y2).max()), mdl.dx, 1e-300)
+                lp = any(np.asarray(getattr(c2, w)).dtype == np.float32 for w in "xyrt")
+                rl = 1e-4 if lp else 1e-9
+                r02, t02 = np.hypot(x2, y2), np.arctan2(y2, x2)
+                dt2 = np.where(r02 <= rl * ext2, 0.0, np.angle(np.exp(1j * (t2 - t02))))
+                if not (bool(np.all(np.abs(r2 - r02) <= rl * ext2)) and bool(np.all(np.abs(dt2) <= (1e-3 if lp else 1e-9)))):
+                    viol("polar-fresh", i, k, bits, order="reverse")
+        except Exception:
+            pass
     coords = {}
     bad_shape = False
     for w in "xyrt":
